@@ -37,12 +37,14 @@ import (
 	"github.com/avfs/avfs/vfs/basepathfs"
 	"github.com/avfs/avfs/vfs/failfs"
 	"github.com/avfs/avfs/vfs/orefafs"
+	"github.com/avfs/avfs/vfs/osfs"
 	"github.com/avfs/avfs/vfs/rofs"
 )
 
 func init() {
 	commands["walkglob"] = runWalkGlob
 	commands["walkglobo"] = runWalkGlobOracle
+	commands["walkglobos"] = runWalkGlobOS
 }
 
 var errCustom = errors.New("custom callback error")
@@ -204,7 +206,7 @@ var wgSegs = []string{"a", "b", "*", "?", "[ab]", "[^a]", "\\a"}
 
 var wgSpecialPatterns = []string{"/", "", ".", "..", "*/", "/*/", "//", "a//b", "*//a", "//*", "[", "a/[", "*/[", "a*[", "[a/b]x",
 	"\\", "a\\", "[]", "[^]", "[a-]", "[]a]", "/tmp/*", "../*", "./*", "*/../*", "/h*/../*", "/*/.", "*/..", "/*mp", "/[r-t]*",
-	"/home", "/nope", "/a/b", "a/b", ".*", "/.*", "*/.*", "/*/.?", ".?", "/.h", "*/.d/*", "*/*/*/*", "/\\*", "/?o*", "c", "/c/*", "*c*", "/a/./*", "/a/../*", "/./*"}
+	"/home", "/nope", "/a/b", "a/b", ".*", "/.*", "*/.*", "/*/.?", ".?", "/.h", "*/.d/*", "/big/*", "/big/e1?", "/*/e0*", "/big/d*/*", "/big/[de]*", "big/*", "*/*/*/*", "/\\*", "/?o*", "c", "/c/*", "*c*", "/a/./*", "/a/../*", "/./*"}
 
 func wgPatterns(maxSeg int) []string {
 	var out []string
@@ -237,6 +239,9 @@ type wgTree struct {
 
 // genTree runs a random history on a fresh MemFS; nil when the history hit a panic/deadlock or an interrupted
 // RemoveAll (those belong to other properties).
+// wgBig: genTree adds the directory /big (40 entries created in a shuffled order): set by the walkglobos stream
+var wgBig bool
+
 func genTree(r *rng, hl int, mode int, keepRoot bool) *wgTree {
 	um := r.pick2([]int{0o22, 0o22, 0, 0o77, 0o27})
 	w := newFSWorld("memfs", "linux", um)
@@ -279,6 +284,33 @@ func genTree(r *rng, hl int, mode int, keepRoot bool) *wgTree {
 				op = fmt.Sprintf("MK 0 %s 493", tok(pjoin(d, ".d")))
 			}
 			if res := w.applyGuarded(strings.Fields(op)); res == "DEADLOCK" || res == "PANIC" {
+				return nil
+			}
+			t.ops = append(t.ops, op)
+		}
+		g.snap = w.snapshotEntries()
+	}
+	if wgBig { // a directory with many entries created in a shuffled order (the real file system lists it unsorted)
+		var ops []string
+		ops = append(ops, "SU 0 0 0 1", "MK 0 "+tok("/big")+" 493")
+		idx := make([]int, 40)
+		for i := range idx {
+			idx[i] = i
+		}
+		for i := len(idx) - 1; i > 0; i-- {
+			j := r.intn(i + 1)
+			idx[i], idx[j] = idx[j], idx[i]
+		}
+		for n, i := range idx {
+			if n%13 == 5 {
+				ops = append(ops, fmt.Sprintf("MK 0 %s 493", tok(fmt.Sprintf("/big/d%02d", i))),
+					fmt.Sprintf("WF 0 %s s78 420", tok(fmt.Sprintf("/big/d%02d/z", i))), fmt.Sprintf("WF 0 %s s78 420", tok(fmt.Sprintf("/big/d%02d/a", i))))
+				continue
+			}
+			ops = append(ops, fmt.Sprintf("WF 0 %s s78 420", tok(fmt.Sprintf("/big/e%02d", i))))
+		}
+		for _, op := range ops {
+			if res := w.applyGuarded(strings.Fields(op)); res != "ok" {
 				return nil
 			}
 			t.ops = append(t.ops, op)
@@ -331,6 +363,12 @@ func (t *wgTree) queryPaths(r *rng, max int) []string {
 		}
 	}
 	add("/")
+	for _, e := range t.snap {
+		if e.path == "/big" {
+			add("/big")
+			max++
+		}
+	}
 	idx := make([]int, len(t.snap))
 	for i := range idx {
 		idx[i] = i
@@ -702,6 +740,17 @@ func materialise(w *fsWorld, es []snapEntry) {
 		mode fs.FileMode
 	}
 	var dirs []fix
+	// creation order: parents before children, otherwise scrambled (a deterministic hash of the path), so that the
+	// directory order of the real file system differs from the lexical order
+	es = append([]snapEntry(nil), es...)
+	depth := func(p string) int { return strings.Count(strings.TrimSuffix(p, "/"), "/") }
+	sort.SliceStable(es, func(i, j int) bool {
+		di, dj := depth(es[i].path), depth(es[j].path)
+		if di != dj {
+			return di < dj
+		}
+		return pathHash(es[i].path) < pathHash(es[j].path)
+	})
 	for _, e := range es {
 		if e.kind == '!' {
 			continue
@@ -747,6 +796,273 @@ func materialise(w *fsWorld, es []snapEntry) {
 			panic(err)
 		}
 	}
+}
+
+func pathHash(p string) uint64 {
+	h := uint64(1469598103934665603)
+	for i := 0; i < len(p); i++ {
+		h ^= uint64(p[i])
+		h *= 1099511628211
+	}
+	h ^= h >> 29
+	return h * 0x9e3779b97f4a7c15
+}
+
+// rawUnsorted counts, as root, the directories of the materialised tree whose raw listing (os.File.ReadDir(-1)) is
+// not in name order: the cases in which a missing sort in avfs shows
+func rawUnsorted(es []snapEntry) (unsorted, multi int) {
+	for _, e := range es {
+		if e.kind != 'D' {
+			continue
+		}
+		f, err := os.Open(e.path)
+		if err != nil {
+			continue
+		}
+		des, _ := f.ReadDir(-1)
+		f.Close()
+		if len(des) < 2 {
+			continue
+		}
+		multi++
+		for i := 1; i < len(des); i++ {
+			if des[i-1].Name() > des[i].Name() {
+				unsorted++
+				break
+			}
+		}
+	}
+	return
+}
+
+// hostOpsAt: the host's functions seen through a base path, as BasePathFS presents them: operands prefixed with
+// the base path, reported paths and matches stripped of it
+func hostOpsAt(bp string) wgOps {
+	to := func(p string) string { return filepath.Join(bp, filepath.Clean(p)) }
+	from := func(p string) string {
+		r := strings.TrimPrefix(p, bp)
+		if r == "" {
+			return "/"
+		}
+		return r
+	}
+	return wgOps{
+		walkDir: func(root string, fn fs.WalkDirFunc) error {
+			return filepath.WalkDir(to(root), func(path string, d fs.DirEntry, err error) error { return fn(from(path), d, err) })
+		},
+		glob: func(pattern string) ([]string, error) {
+			m, err := filepath.Glob(bp + pattern)
+			for i := range m {
+				m[i] = from(m[i])
+			}
+			return m, err
+		},
+		readDir: func(name string) ([]fs.DirEntry, error) { return os.ReadDir(to(name)) },
+		errc:    errCode,
+	}
+}
+
+// osKind: the operations of the given kind over OsFS
+func osKind(kind string, ofs avfs.VFS, bp string) (o wgOps, ok bool) {
+	defer func() {
+		if r := recover(); r != nil {
+			ok = false
+		}
+	}()
+	switch kind {
+	case "osfs":
+		return vfsOps(ofs), true
+	case "os-rofs":
+		return vfsOps(rofs.New(ofs)), true
+	case "os-failfs":
+		return vfsOps(failfs.New(ofs)), true
+	case "os-basepathfs":
+		return vfsOps(basepathfs.New(ofs, bp)), true
+	}
+	panic("kind " + kind)
+}
+
+// walkglobos: avfs over the REAL file system.  The tree of a MemFS history (plus /big: 40 entries created in a shuffled
+// order) is materialised in a chroot on tmpfs in a scrambled creation order; the queries are answered by avfs through
+// OsFS and through RoFS / FailFS(OkFunc) / BasePathFS over OsFS (<name>.observed), by filepath.WalkDir / filepath.Glob /
+// os.ReadDir in the same chroot (<name>.oracle; for BasePathFS through the base path), and by the model of vfs.go
+// over the MemFS model of the same tree (ml/driver walkglob), whose ReadDir sorts whatever order the file returns.
+func runWalkGlobOS(cfg config) {
+	runtime.LockOSThread()
+	os.Unsetenv("PWD")
+	wgBig = true
+	o := newOut(cfg.dir, cfg.name)
+	defer o.close(cfg.name)
+	fora, err := os.Create(filepath.Join(cfg.dir, cfg.name+".oracle"))
+	if err != nil {
+		panic(err)
+	}
+	defer fora.Close()
+	scratch := fmt.Sprintf("/dev/shm/verif-%d", os.Getpid())
+	defer os.RemoveAll(scratch)
+	ofs := osfs.New() // outside the chroot: its identity manager reads the host's user database once
+	cr := checkRestFlag()
+	jn := 0
+	session := func(w *fsWorld, snap []snapEntry, user [3]int, cwd string, f func()) bool {
+		jn++
+		j := enterJail(fmt.Sprintf("%s/t%d", scratch, jn))
+		defer j.leave()
+		materialise(w, snap)
+		u, m := rawUnsorted(snap)
+		o.dist["dirs-with-2+-entries"] += m
+		o.dist["dirs-listed-unsorted-by-the-kernel"] += u
+		setThreadIdentity(user[0], user[1])
+		if cwd != "/" {
+			if err := os.Chdir(cwd); err != nil {
+				return false
+			}
+		}
+		f()
+		return true
+	}
+	// every query is executed on this (locked, re-identified) thread: no helper goroutine
+	evalBoth := func(ao, ho wgOps, qs []string) (obs, ora []string) {
+		for _, q := range qs {
+			obs = append(obs, ao.query(q))
+			ora = append(ora, ho.query(q))
+		}
+		return
+	}
+	if rl := cfg.replayLines(); rl != nil {
+		for _, l := range rl {
+			hd, ops, qs := replayCase(l)
+			mhd := append([]string{"memfs"}, hd[1:]...)
+			_, w, ok := buildWorld(append(mhd[:3:3], "-"), ops)
+			if !ok {
+				o.emit(l, "BUILDFAILED", "")
+				fora.WriteString("BUILDFAILED\n")
+				continue
+			}
+			user := [3]int{0, 0, 1}
+			for _, op := range ops {
+				t := strings.Fields(op)
+				if t[0] == "SU" {
+					user = [3]int{atoi(t[2]), atoi(t[3]), atoi(t[4])}
+				}
+			}
+			cwd, err := w.views[0].Getwd()
+			if err != nil {
+				cwd = "/"
+			}
+			bp := ""
+			if hd[3] != "-" {
+				bp = untok(hd[3])
+			}
+			var obs, ora []string
+			valid := true
+			ok = session(w, w.snapshotEntries(), user, cwd, func() {
+				ao, k := osKind(hd[0], ofs, bp)
+				if !k {
+					valid = false
+					return
+				}
+				ho := hostOps()
+				if hd[0] == "os-basepathfs" {
+					ho = hostOpsAt(bp)
+				}
+				obs, ora = evalBoth(ao, ho, qs)
+			})
+			if !ok || !valid {
+				o.emit(l, "INVALID", "")
+				fora.WriteString("INVALID\n")
+				continue
+			}
+			o.emit(l, strings.Join(obs, " | "), "")
+			fora.WriteString(strings.Join(ora, " | ") + "\n")
+		}
+		return
+	}
+	ntrees, hl, maxSeg, maxPaths := 12, 25, 2, 5
+	if cfg.tier == "thorough" {
+		ntrees, hl, maxSeg, maxPaths = 60, 40, 2, 10
+	}
+	o.rule = fmt.Sprintf("%d trees built by random MemFS histories of %d calls plus the directory /big (40 files and sub-directories created in a shuffled order), materialised in a chroot on tmpfs in a scrambled creation order (the kernel lists the directories unsorted: counted under dirs-listed-unsorted-by-the-kernel); ReadDir / WalkDir (always-nil callback and SkipDir, SkipAll, custom error at every invocation index) / Glob on clean operands answered by avfs through OsFS, RoFS(OsFS), FailFS(OsFS, OkFunc), BasePathFS(OsFS, base path = /big or another directory; absolute operands), by filepath.WalkDir / filepath.Glob / os.ReadDir in the same chroot as the acting identity, and by the extracted model of vfs.go (whose ReadDir sorts any listing order) over the MemFS model of the same tree", ntrees, hl)
+	r := &rng{s: cfg.seed*49979687 + 3}
+	kinds := []string{"osfs", "os-basepathfs", "os-failfs", "os-rofs"}
+	nq := 0
+	for i := 0; i < ntrees; i++ {
+		var t *wgTree
+		for t == nil {
+			t = genTree(r, hl, i%3, true)
+		}
+		mo := vfsOps(t.w.views[0])
+		okc := session(t.w, t.snap, t.user, t.cwd, func() {
+			for ki, kind := range kinds {
+				if ki > 0 && (i+ki)%2 == 0 { // OsFS on every tree, the wrappers on every second one each
+					continue
+				}
+				bp := "-"
+				t2 := t
+				absOnly := false
+				ho := hostOps()
+				bpath := ""
+				if kind == "os-basepathfs" {
+					bpath = "/big"
+					if i%4 == 3 {
+						var dirs []string
+						for _, e := range t.snap {
+							if e.kind == 'D' && e.path != "/" {
+								dirs = append(dirs, e.path)
+							}
+						}
+						bpath = dirs[r.intn(len(dirs))]
+					}
+					if _, err := os.Stat(bpath); err != nil {
+						continue
+					}
+					bp = tok(bpath)
+					absOnly = true
+					ho = hostOpsAt(bpath)
+					t2 = &wgTree{um: t.um, ops: t.ops, w: t.w, user: t.user, cwd: t.cwd}
+					for _, e := range t.snap {
+						if e.path == bpath {
+							t2.snap = append(t2.snap, snapEntry{path: "/", kind: e.kind})
+						} else if strings.HasPrefix(e.path, bpath+"/") {
+							t2.snap = append(t2.snap, snapEntry{path: e.path[len(bpath):], kind: e.kind})
+						}
+					}
+				}
+				ao, k := osKind(kind, ofs, bpath)
+				if !k {
+					continue
+				}
+				o.count("kind:" + kind)
+				// the number of invocations is learnt from the MemFS implementation (BasePathFS: from the host through the base path)
+				lo := mo
+				if kind == "os-basepathfs" {
+					lo = ho
+				}
+				qs := t2.queries(r, lo, maxSeg, maxPaths, absOnly, &ho)
+				var keep []string
+				for _, q := range qs {
+					if !strings.HasPrefix(q, "Q H ") && inUniverseC14(untok(strings.Fields(q)[2])) {
+						keep = append(keep, q)
+					}
+				}
+				nq += len(keep)
+				hdr := fmt.Sprintf("%s %s %d %s", kind, cr, t.um, bp)
+				emitBatches(o, hdr, t.ops, keep, func(q string) string { return ao.query(q) },
+					func(_ string, batch []string) {
+						var os_ []string
+						for _, q := range batch {
+							os_ = append(os_, ho.query(q))
+						}
+						fora.WriteString(strings.Join(os_, " | ") + "\n")
+					})
+			}
+		})
+		if !okc {
+			o.count("oracle-cwd-refused")
+		}
+	}
+	o.extra["evaluations"] = nq
+	o.extra["trees"] = ntrees
+	o.extra["kernel"] = kernelKnobs()
 }
 
 func runWalkGlobOracle(cfg config) {
